@@ -32,13 +32,16 @@ func init() {
 				newSrvWorld(e, cfg).run()
 			}},
 			{Name: "sctp-association", Weight: 1, Bubble: true, Run: func(e *Env) { c19RunX(e, false, nil, true) }},
+			// the library's own handlers block too: a state machine whose CEA write is stuck on one
+			// connection (and whose handshake notifications nobody collects) must go on serving the other
+			{Name: "state-machine-stalled-cea", Weight: 1, Bubble: true, Run: func(e *Env) { smaRun(e, "C08") }},
 			{Name: "serve-yield", Weight: 3, Bubble: true, Run: func(e *Env) {
 				t := e.T
 				cfg := srvCfg{prop: "C08", nConns: t.Range(2, 3), nDialled: t.Draw(2), msgsPer: [2]int{1, 5}, parkPct: 50, answerPct: 30, yields: true, cnTasks: true}
 				newSrvWorld(e, cfg).run()
 			}},
 		},
-		MustProbes: []string{"yield-parked", "closenotify-from-task", "back-to-back-accept", "deferred-answer", "sctp-handler-parked", "answer-write-stalled", "late-connection"},
+		MustProbes: []string{"yield-parked", "closenotify-from-task", "back-to-back-accept", "deferred-answer", "sctp-handler-parked", "answer-write-stalled", "late-connection", "other-connection-served-during-stalled-cea"},
 	})
 	register(&Property{
 		ID: "C09", Level: "exploration",
